@@ -1,24 +1,447 @@
 package h
 
+// C03 Typed unpacking preserves the value or fails - it never wraps around.
+//
+// Sources are full-range symbolic int64 / uint64 / float64 settings (every
+// bit pattern), set with SetInt/SetUint/SetFloat or built by NewFrom, read
+// back through the typed getters and through Unpack into every primitive
+// target kind (plain, pointer, named), directly and through ${ref}.
+// Oracle, closed form: err == nil  =>  stored value == mathematical value.
+
 import (
+	"math"
+	"strconv"
+	"time"
+
 	ucfg "github.com/elastic/go-ucfg"
 
 	"vharness/verif"
 )
 
-// H_C03_smoke: float setting read through Int(): either an error or the
-// truncated mathematical value.
-func H_C03_smoke() {
-	f := verif.Float64("f")
-	c := ucfg.New()
-	c.SetFloat("v", -1, f)
-	i, err := c.Int("v", -1)
-	if err == nil {
-		verif.Reach("float->int ok")
-		inRange := verif.And(f > -9223372036854777856.0, f < 9223372036854775808.0)
-		verif.Assert(inRange, "C03/getter/float->int64/range")
-		verif.Assert(verif.Implies(inRange, float64(i) <= f+1), "C03/getter/float->int64/value")
+const (
+	two63  = 9223372036854775808.0
+	two64  = 18446744073709551616.0
+	maxSec = 9223372036 // floor(MaxInt64 / 1e9)
+)
+
+type sint interface {
+	~int | ~int8 | ~int16 | ~int32 | ~int64
+}
+type uint_ interface {
+	~uint | ~uint8 | ~uint16 | ~uint32 | ~uint64
+}
+
+type box[K any] struct {
+	V K `config:"v"`
+}
+type pbox[K any] struct {
+	V *K `config:"v"`
+}
+
+type myInt8 int8
+type myUint16 uint16
+type myFloat32 float32
+
+// numeric source kinds
+const (
+	srcInt = iota
+	srcUint
+	srcFloat
+	nSrc
+)
+
+var srcName = [...]string{"int64", "uint64", "float64"}
+
+type numSrc struct {
+	kind int
+	i    int64
+	u    uint64
+	f    float64
+}
+
+func pickSrc() numSrc {
+	s := numSrc{kind: verif.Choice("src", nSrc)}
+	switch s.kind {
+	case srcInt:
+		s.i = verif.Int64("i")
+	case srcUint:
+		s.u = verif.Uint64("u")
+	case srcFloat:
+		s.f = verif.Float64("f")
+	}
+	return s
+}
+
+// mkCfg stores the source under "v", by setter, by NewFrom, or behind a reference.
+func (s numSrc) mkCfg() (*ucfg.Config, []ucfg.Option) {
+	route := verif.Choice("route", 3)
+	switch route {
+	case 0: // low-level setter
+		c := ucfg.New()
+		switch s.kind {
+		case srcInt:
+			c.SetInt("v", -1, s.i)
+		case srcUint:
+			c.SetUint("v", -1, s.u)
+		case srcFloat:
+			c.SetFloat("v", -1, s.f)
+		}
+		return c, nil
+	case 1: // normalisation of a Go value
+		var c *ucfg.Config
+		var err error
+		switch s.kind {
+		case srcInt:
+			c, err = ucfg.NewFrom(map[string]interface{}{"v": s.i})
+		case srcUint:
+			c, err = ucfg.NewFrom(map[string]interface{}{"v": s.u})
+		case srcFloat:
+			c, err = ucfg.NewFrom(map[string]interface{}{"v": s.f})
+		}
+		verif.Assert(err == nil, "C03/newfrom-number-accepted")
+		return c, nil
+	default: // produced by variable expansion: v = ${r}
+		opts := []ucfg.Option{ucfg.VarExp}
+		var c *ucfg.Config
+		var err error
+		switch s.kind {
+		case srcInt:
+			c, err = ucfg.NewFrom(map[string]interface{}{"r": s.i, "v": "${r}"}, opts...)
+		case srcUint:
+			c, err = ucfg.NewFrom(map[string]interface{}{"r": s.u, "v": "${r}"}, opts...)
+		case srcFloat:
+			c, err = ucfg.NewFrom(map[string]interface{}{"r": s.f, "v": "${r}"}, opts...)
+		}
+		verif.Assert(err == nil, "C03/newfrom-reference-accepted")
+		return c, opts
+	}
+}
+
+// ---- oracles: "ok implies exact" ----
+
+func (s numSrc) okInt64(v int64) bool {
+	switch s.kind {
+	case srcInt:
+		return v == s.i
+	case srcUint:
+		return verif.And(v >= 0, uint64(v) == s.u)
+	default:
+		return verif.And(verif.And(s.f >= -two63, s.f < two63), v == int64(s.f))
+	}
+}
+
+func (s numSrc) okUint64(v uint64) bool {
+	switch s.kind {
+	case srcInt:
+		return verif.And(s.i >= 0, v == uint64(s.i))
+	case srcUint:
+		return v == s.u
+	default:
+		// fractions in (-1, 0) truncate to 0; rejecting them is also allowed
+		return verif.And(verif.And(s.f > -1, s.f < two64), v == uint64(s.f))
+	}
+}
+
+func (s numSrc) okFloat64(v float64) bool {
+	switch s.kind {
+	case srcInt:
+		return v == float64(s.i)
+	case srcUint:
+		return v == float64(s.u)
+	default:
+		return verif.Or(v == s.f, verif.And(verif.IsNaN(v), verif.IsNaN(s.f)))
+	}
+}
+
+func (s numSrc) okFloat32(v float32) bool {
+	var f float64
+	switch s.kind {
+	case srcInt:
+		f = float64(s.i)
+	case srcUint:
+		f = float64(s.u)
+	default:
+		f = s.f
+	}
+	exact := verif.Or(v == float32(f), verif.And(verif.IsNaN(float64(v)), verif.IsNaN(f)))
+	// a finite source must not silently become infinite
+	finite := verif.Or(verif.Not(verif.And(f >= -math.MaxFloat64, f <= math.MaxFloat64)), verif.And(v >= -math.MaxFloat32, v <= math.MaxFloat32))
+	return verif.And(exact, finite)
+}
+
+func (s numSrc) okDuration(d time.Duration) bool {
+	switch s.kind {
+	case srcInt:
+		return verif.And(verif.And(s.i >= -maxSec, s.i <= maxSec), int64(d) == s.i*1000000000)
+	case srcUint:
+		return verif.And(s.u <= maxSec, uint64(d) == s.u*1000000000)
+	default:
+		ns := s.f * 1e9
+		return verif.And(verif.And(ns >= -two63, ns < two63), int64(d) == int64(ns))
+	}
+}
+
+func unpackSint[K sint](s numSrc, c *ucfg.Config, opts []ucfg.Option, name string) {
+	var t box[K]
+	if err := c.Unpack(&t, opts...); err == nil {
+		verif.Reach("unpack ok")
+		verif.Assert(s.okInt64(int64(t.V)), "C03/unpack/"+srcName[s.kind]+"->"+name)
 	} else {
-		verif.Reach("float->int error")
+		verif.Reach("unpack error")
+	}
+}
+
+func unpackUint[K uint_](s numSrc, c *ucfg.Config, opts []ucfg.Option, name string) {
+	var t box[K]
+	if err := c.Unpack(&t, opts...); err == nil {
+		verif.Reach("unpack ok")
+		verif.Assert(s.okUint64(uint64(t.V)), "C03/unpack/"+srcName[s.kind]+"->"+name)
+	} else {
+		verif.Reach("unpack error")
+	}
+}
+
+// H_C03_unpack: every numeric source into every integer / float / duration target.
+func H_C03_unpack() {
+	s := pickSrc()
+	c, opts := s.mkCfg()
+	switch verif.Choice("target", 19) {
+	case 0:
+		unpackSint[int8](s, c, opts, "int8")
+	case 1:
+		unpackSint[int16](s, c, opts, "int16")
+	case 2:
+		unpackSint[int32](s, c, opts, "int32")
+	case 3:
+		unpackSint[int64](s, c, opts, "int64")
+	case 4:
+		unpackSint[int](s, c, opts, "int")
+	case 5:
+		unpackUint[uint8](s, c, opts, "uint8")
+	case 6:
+		unpackUint[uint16](s, c, opts, "uint16")
+	case 7:
+		unpackUint[uint32](s, c, opts, "uint32")
+	case 8:
+		unpackUint[uint64](s, c, opts, "uint64")
+	case 9:
+		unpackUint[uint](s, c, opts, "uint")
+	case 10:
+		unpackSint[myInt8](s, c, opts, "named-int8")
+	case 11:
+		unpackUint[myUint16](s, c, opts, "named-uint16")
+	case 12:
+		var t box[float64]
+		if err := c.Unpack(&t, opts...); err == nil {
+			verif.Reach("unpack ok")
+			verif.Assert(s.okFloat64(t.V), "C03/unpack/"+srcName[s.kind]+"->float64")
+		}
+	case 13:
+		var t box[float32]
+		if err := c.Unpack(&t, opts...); err == nil {
+			verif.Reach("unpack ok")
+			verif.Assert(s.okFloat32(t.V), "C03/unpack/"+srcName[s.kind]+"->float32")
+		}
+	case 14:
+		var t box[myFloat32]
+		if err := c.Unpack(&t, opts...); err == nil {
+			verif.Assert(s.okFloat32(float32(t.V)), "C03/unpack/"+srcName[s.kind]+"->named-float32")
+		}
+	case 15:
+		var t box[time.Duration]
+		if err := c.Unpack(&t, opts...); err == nil {
+			verif.Reach("unpack ok")
+			verif.Assert(s.okDuration(t.V), "C03/unpack/"+srcName[s.kind]+"->duration")
+		}
+	case 16:
+		var t pbox[int16]
+		if err := c.Unpack(&t, opts...); err == nil {
+			verif.Assert(t.V != nil, "C03/unpack/pointer-allocated")
+			if t.V != nil {
+				verif.Assert(s.okInt64(int64(*t.V)), "C03/unpack/"+srcName[s.kind]+"->*int16")
+			}
+		}
+	case 17:
+		var t pbox[uint32]
+		if err := c.Unpack(&t, opts...); err == nil {
+			verif.Assert(t.V != nil, "C03/unpack/pointer-allocated")
+			if t.V != nil {
+				verif.Assert(s.okUint64(uint64(*t.V)), "C03/unpack/"+srcName[s.kind]+"->*uint32")
+			}
+		}
+	case 18:
+		var t pbox[time.Duration]
+		if err := c.Unpack(&t, opts...); err == nil {
+			verif.Assert(t.V != nil, "C03/unpack/pointer-allocated")
+			if t.V != nil {
+				verif.Assert(s.okDuration(*t.V), "C03/unpack/"+srcName[s.kind]+"->*duration")
+			}
+		}
+	}
+}
+
+// H_C03_getters: the same sources through Int / Uint / Float / Bool.
+func H_C03_getters() {
+	s := pickSrc()
+	c, opts := s.mkCfg()
+	switch verif.Choice("getter", 3) {
+	case 0:
+		if v, err := c.Int("v", -1, opts...); err == nil {
+			verif.Reach("getter ok")
+			verif.Assert(s.okInt64(v), "C03/getter/"+srcName[s.kind]+"->Int")
+		} else {
+			verif.Reach("getter error")
+		}
+	case 1:
+		if v, err := c.Uint("v", -1, opts...); err == nil {
+			verif.Reach("getter ok")
+			verif.Assert(s.okUint64(v), "C03/getter/"+srcName[s.kind]+"->Uint")
+		} else {
+			verif.Reach("getter error")
+		}
+	case 2:
+		if v, err := c.Float("v", -1, opts...); err == nil {
+			verif.Reach("getter ok")
+			verif.Assert(s.okFloat64(v), "C03/getter/"+srcName[s.kind]+"->Float")
+		}
+	}
+}
+
+// H_C03_must_succeed: the converse direction for the cases where the value is
+// representable: the conversion must not be refused (otherwise "always fail"
+// would satisfy the property).
+func H_C03_must_succeed() {
+	switch verif.Choice("case", 4) {
+	case 0:
+		i := verif.Int64("i")
+		verif.Assume(verif.And(i >= -128, i <= 127))
+		c := ucfg.New()
+		c.SetInt("v", -1, i)
+		var t box[int8]
+		err := c.Unpack(&t)
+		verif.Assert(err == nil, "C03/representable/int64->int8 accepted")
+	case 1:
+		u := verif.Uint64("u")
+		verif.Assume(u <= 65535)
+		c := ucfg.New()
+		c.SetUint("v", -1, u)
+		var t box[uint16]
+		err := c.Unpack(&t)
+		verif.Assert(err == nil, "C03/representable/uint64->uint16 accepted")
+	case 2:
+		f := verif.Float64("f")
+		verif.Assume(verif.And(f > -2147483649.0, f < 2147483648.0))
+		c := ucfg.New()
+		c.SetFloat("v", -1, f)
+		var t box[int32]
+		err := c.Unpack(&t)
+		verif.Assert(err == nil, "C03/representable/float64->int32 accepted")
+	case 3:
+		i := verif.Int64("i")
+		verif.Assume(verif.And(i >= -maxSec, i <= maxSec))
+		c := ucfg.New()
+		c.SetInt("v", -1, i)
+		var t box[time.Duration]
+		err := c.Unpack(&t)
+		verif.Assert(err == nil, "C03/representable/int64->duration accepted")
+	}
+}
+
+// boundary table of textual numbers in every syntax strconv accepts
+var c03Strings = []string{
+	"0", "-0", "+0", "1", "-1", "127", "128", "-128", "-129", "255", "256", "32767", "32768", "65535", "65536",
+	"2147483647", "2147483648", "-2147483648", "-2147483649", "4294967295", "4294967296",
+	"9223372036854775807", "9223372036854775808", "-9223372036854775808", "-9223372036854775809",
+	"18446744073709551615", "18446744073709551616", "0x7f", "0x80", "0xff", "0x100", "-0x80", "-0x81", "0o177", "0b1111111", "0b10000000",
+	"1_000", "0x_ff", "007", "08", "1e3", "1.5", "-1.5", "1e400", "NaN", "Inf", "-Inf", "", " 1", "1 ", "abc", "true", "false", "t", "0x", "-", "+",
+	"3.4028235e38", "3.5e38", "1s", "1.5h", "-2ms", "1", "9223372036", "9223372037",
+}
+
+// H_C03_strings: string settings into numeric targets, against strconv as the
+// definition of "a string that parses" (concrete boundary table; the engine
+// executes go-ucfg's code, the reference value comes from strconv directly).
+func H_C03_strings() {
+	s := c03Strings[verif.Choice("text", len(c03Strings))]
+	c := ucfg.New()
+	c.SetString("v", -1, s)
+	switch verif.Choice("target", 8) {
+	case 0:
+		var t box[int8]
+		if err := c.Unpack(&t); err == nil {
+			ref, perr := strconv.ParseInt(s, 0, 8)
+			verif.Assert(perr == nil && int64(t.V) == ref, "C03/unpack/string->int8")
+		}
+	case 1:
+		var t box[int64]
+		if err := c.Unpack(&t); err == nil {
+			ref, perr := strconv.ParseInt(s, 0, 64)
+			verif.Assert(perr == nil && t.V == ref, "C03/unpack/string->int64")
+		}
+	case 2:
+		var t box[uint8]
+		if err := c.Unpack(&t); err == nil {
+			ref, perr := strconv.ParseUint(s, 0, 8)
+			verif.Assert(perr == nil && uint64(t.V) == ref, "C03/unpack/string->uint8")
+		}
+	case 3:
+		var t box[uint64]
+		if err := c.Unpack(&t); err == nil {
+			ref, perr := strconv.ParseUint(s, 0, 64)
+			verif.Assert(perr == nil && t.V == ref, "C03/unpack/string->uint64")
+		}
+	case 4:
+		var t box[float32]
+		if err := c.Unpack(&t); err == nil {
+			ref, perr := strconv.ParseFloat(s, 32)
+			verif.Assert(perr == nil && (float64(t.V) == ref || ref != ref), "C03/unpack/string->float32")
+		}
+	case 5:
+		var t box[float64]
+		if err := c.Unpack(&t); err == nil {
+			ref, perr := strconv.ParseFloat(s, 64)
+			verif.Assert(perr == nil && (t.V == ref || ref != ref), "C03/unpack/string->float64")
+		}
+	case 6:
+		var t box[bool]
+		if err := c.Unpack(&t); err == nil {
+			ref, perr := strconv.ParseBool(s)
+			verif.Assert(perr == nil && t.V == ref, "C03/unpack/string->bool")
+		}
+	case 7:
+		var t box[time.Duration]
+		if err := c.Unpack(&t); err == nil {
+			ref, perr := time.ParseDuration(s)
+			verif.Assert(perr == nil && t.V == ref, "C03/unpack/string->duration")
+		}
+	}
+	verif.Reach("string source")
+}
+
+// H_C03_symstr: short symbolic digit strings into int8 / uint8: go-ucfg's
+// range handling against strconv with the target's bit size.
+func H_C03_symstr() {
+	n := 1 + verif.Choice("len", 3)
+	s := verif.Bytes("s", n)
+	for i := 0; i < n; i++ {
+		b := s[i]
+		// alphabet: digits, sign, hex/underscore markers
+		verif.Assume(verif.Or(verif.And(b >= '0', b <= '9'), verif.Or(verif.Or(b == '-', b == '+'), verif.Or(b == 'x', b == '_'))))
+	}
+	c := ucfg.New()
+	c.SetString("v", -1, s)
+	if verif.Choice("target", 2) == 0 {
+		var t box[int8]
+		if err := c.Unpack(&t); err == nil {
+			verif.Reach("symbolic text accepted")
+			ref, perr := strconv.ParseInt(s, 0, 8)
+			verif.Assert(verif.And(perr == nil, int64(t.V) == ref), "C03/unpack/symbolic-text->int8")
+		}
+	} else {
+		var t box[uint8]
+		if err := c.Unpack(&t); err == nil {
+			verif.Reach("symbolic text accepted")
+			ref, perr := strconv.ParseUint(s, 0, 8)
+			verif.Assert(verif.And(perr == nil, uint64(t.V) == ref), "C03/unpack/symbolic-text->uint8")
+		}
 	}
 }
